@@ -113,6 +113,12 @@ func enumerateUnit(u unit, f func(Case)) {
 					if blocked && s.at != 0 {
 						continue
 					}
+					if cx == "inbody" && s.at != 0 {
+						// every statement of a TransactCtx body carries the context the body has
+						// just cancelled: database/sql refuses it before the driver is asked, so
+						// a driver-level statement fault can never be reached
+						continue
+					}
 					onErrs := []string{"return", "ignore"}
 					if blocked || (s.at == 0 && cx != "inbody") {
 						onErrs = onErrs[:1] // no statement can fail: the policy is unobservable
@@ -120,6 +126,12 @@ func enumerateUnit(u unit, f func(Case)) {
 					for _, oe := range onErrs {
 						for _, tm := range terms {
 							if blocked && tm != "nil" && tm != "err" && tm != "panic:error" {
+								continue
+							}
+							if s.at > 0 && oe == "return" && cx == "live" && tm != "nil" {
+								// the harness body returns the k-th statement's error itself, so
+								// its terminal is unreachable by construction (should the fault not
+								// fire, "then=nil" records that)
 								continue
 							}
 							for _, end := range []string{"none", "commit", "rollback"} {
@@ -392,12 +404,15 @@ func main() {
 	r.Assume("the transaction body finishes by returning or panicking (runtime.Goexit inside the body is outside the quantifier)")
 	r.Assume("driver errors are ordinary errors (driver.ErrBadConn, on which database/sql itself retries Begin, is not injected)")
 	r.Assume("go.mod says go >= 1.21, so panic(nil) reaches recover as *runtime.PanicNilError (GODEBUG=panicnil=1 not considered)")
-	r.SetRule("full cross product: 8 entry points (sqlx.NewSqlConnFromDB / sqlx.NewSqlConn / sqlc.NewConnWithCache / sqlc.NewNodeConn / sqlc.NewConn, Transact and TransactCtx) " +
+	r.SetRule("cross product: 8 entry points (sqlx.NewSqlConnFromDB / sqlx.NewSqlConn / sqlc.NewConnWithCache / sqlc.NewNodeConn / sqlc.NewConn, Transact and TransactCtx) " +
 		"x every body of 0..N statements over {exec, query, prepared exec, prepared query, nested Transact attempt} x driver flavour {direct, prepare-fallback} " +
 		"x begin {ok, Begin fails, connection cannot be opened} x ctx {live, cancelled before, cancelled by the body} x statement fault {none, k-th statement fails by driver error / no rows / Prepare error} " +
 		"x body policy {returns the error, ignores it} x terminal {return nil, own error, typed-nil error, panic with 7 kinds of value} x end fault {none, Commit fails, Rollback fails}; " +
-		"each case runs once on a fresh recorder/sql.DB/SqlConn. A case is distinct by all those coordinates and non-trivial iff it has at least one fault point and every fault point it arms " +
-		"was actually reached (the driver call was made and failed, the body reached its return-error/panic point, the call saw the cancelled context); fault-free and fault-masked cases are evaluated but not counted")
+		"only combinations whose extra coordinate is unobservable by construction of the harness body or of database/sql are left out (statement faults and 7 of the 10 terminals when no transaction can begin; " +
+		"terminals behind a statement error the body itself returns; driver statement faults behind a context the body has cancelled). " +
+		"Each case runs once on a fresh recorder and fresh SqlConn/breaker. A case is distinct by all those coordinates and non-trivial iff it has at least one fault point and every fault point it arms " +
+		"was actually reached (the driver call was made and failed, the body reached its return-error/panic point, the call saw the cancelled context); fault-free and fault-masked cases " +
+		"(e.g. Commit armed to fail but the body failed, so Rollback ran) are evaluated by the same oracle but not counted")
 	pprof.StopCPUProfile()
 	r.Finish()
 }
